@@ -1,1 +1,106 @@
 import EoNVerif.Model.ListDict
+import EoNVerif.Model.ListDictLaw
+import EoNVerif.Proofs.ListDict
+/-!
+C16 — property theorems (all proved).  Helper lemmas are in `EoNVerif/Proofs/ListDict.lean`
+(may import single Mathlib modules); this file (final home: `EoNVerif/Props/C16.lean`) keeps only the property
+theorems and the non-vacuity examples.
+-/
+namespace LD
+variable {α : Type} [DecidableEq α]
+
+/- `LD.Inv` (the invariant of the candidate structure) is defined, unchanged, in `EoNVerif/Proofs/ListDict.lean`. -/
+
+theorem ld_inv_empty (b : Bool) : Inv (LD.empty b : LD α) := inv_empty b
+
+/-- one operation with a non-negative weight preserves the invariant -/
+theorem ld_inv_step (s s' : LD α) (o : Op α) (h : Inv s) (hw : o.nonneg) (hs : s.applyOp o = some s') : Inv s' :=
+  inv_step s s' o h hw hs
+
+/-- every finite history of insert / replace / non-negative increment / remove, from empty -/
+theorem ld_inv (b : Bool) (ops : List (Op α)) (s : LD α) (hw : ∀ o ∈ ops, o.nonneg)
+    (hs : (LD.empty b : LD α).applyOps ops = some s) : Inv s :=
+  inv_applyOps _ ops s (inv_empty b) hw hs
+
+/-- the clock uses the sum of the current weights -/
+theorem ld_total (b : Bool) (ops : List (Op α)) (s : LD α) (hw : ∀ o ∈ ops, o.nonneg)
+    (hs : (LD.empty b : LD α).applyOps ops = some s) :
+    s.totalWeight = if s.weighted then s.weightSum else (s.items.length : Rat) := by
+  have h := inv_applyOps _ ops s (inv_empty b) hw hs
+  unfold totalWeight
+  by_cases hwt : s.weighted = true
+  · rw [if_pos hwt, if_pos hwt]; exact h.total hwt
+  · rw [if_neg hwt, if_neg hwt]
+
+/-- remove never raises KeyError on a present candidate, and deletes exactly that candidate -/
+theorem ld_remove_spec (s : LD α) (x : α) (h : Inv s) (hx : x ∈ s.items) :
+    ∃ s', s.remove x = some s' ∧ (∀ y, y ∈ s'.items ↔ (y ∈ s.items ∧ y ≠ x)) ∧
+      (s.weighted = true → ∀ y ∈ s'.items, s'.getW y = s.getW y) := by
+  obtain ⟨s', hs', hit, _, hrest⟩ := remove_shape s x hx
+  have hmem : ∀ y, y ∈ s'.items ↔ (y ∈ s.items ∧ y ≠ x) := by
+    intro y; rw [hit]; exact mem_swapRemove _ _ _ h.nodup hx
+  refine ⟨s', hs', hmem, ?_⟩
+  intro hwt y hy
+  unfold getW
+  rw [(hrest hwt).1]
+  exact alGet_alDel_ne _ _ _ _ ((hmem y).1 hy).2
+
+set_option linter.unusedVariables false in -- `hw` is not needed for this spec
+/-- update on an absent candidate inserts it with the given weight, on a present one adds the increment;
+other candidates keep their weight -/
+theorem ld_update_spec (s s' : LD α) (x : α) (w : Rat) (h : Inv s) (hw : 0 ≤ w) (hwt : s.weighted = true)
+    (hs : s.update x (some w) = some s') :
+    (∀ y, y ∈ s'.items ↔ (y ∈ s.items ∨ y = x)) ∧
+    s'.getW x = (if x ∈ s.items then s.getW x else 0) + w ∧
+    (∀ y, y ≠ x → s'.getW y = s.getW y) := by
+  refine ⟨update_mem s s' x w hs, ?_, fun y hy => update_getW_ne s s' x y w hs hy⟩
+  rw [update_getW_self s s' x w hs]
+  by_cases hx : x ∈ s.items
+  · rw [if_pos hx]
+  · rw [if_neg hx, getW_of_not_mem s h hwt x hx]
+
+/-- **selection law**: after any history, within `k` rounds candidate `x` is selected with probability
+`w_x/Σw · (1-ρ^k)`; `ρ^k` is the probability that all `k` rounds reject (→ 0). -/
+theorem ld_choose_law (s : LD α) (h : Inv s) (hwt : s.weighted = true) (hpos : 0 < s.weightSum)
+    (x : α) (hx : x ∈ s.items) (k : Nat) :
+    Dist.mass (s.chooseDist k) (fun o => o == some x) = s.getW x / s.weightSum * (1 - s.rejProb ^ k) :=
+  choose_law s h hwt hpos x hx k
+
+/-- the rejection probability is in [0,1): the loop terminates with probability 1 -/
+theorem ld_rej_lt_one (s : LD α) (h : Inv s) (hwt : s.weighted = true) (hpos : 0 < s.weightSum) :
+    0 ≤ s.rejProb ∧ s.rejProb < 1 :=
+  rej_bounds s h hwt hpos
+
+/-- unweighted: uniform -/
+theorem ld_choose_law_unweighted (s : LD α) (h : Inv s) (hwt : s.weighted = false)
+    (x : α) (hx : x ∈ s.items) (k : Nat) :
+    Dist.mass (s.chooseDist (k+1)) (fun o => o == some x) = 1 / (s.items.length : Rat) :=
+  choose_law_unweighted s h hwt x hx k
+
+/-- zero-weight candidates are never selected (law form) -/
+theorem ld_zero_never (s : LD α) (h : Inv s) (hwt : s.weighted = true)
+    (x : α) (hx : x ∈ s.items) (h0 : s.getW x = 0) (k : Nat) :
+    Dist.mass (s.chooseDist k) (fun o => o == some x) = 0 :=
+  zero_never s h hwt x hx h0 k
+
+/-- zero-weight candidates are never selected (pathwise form: for every tape of draws in [0,1)) and the
+selected element is always a current candidate -/
+theorem ld_choose_tape (s : LD α) (h : Inv s) (draws : List (Nat × Rat)) (hd : ∀ d ∈ draws, 0 ≤ d.2)
+    (c : α) (n : Nat) (hc : s.chooseRandom draws = some (c, n)) :
+    c ∈ s.items ∧ (s.weighted = true → 0 < s.getW c) :=
+  choose_tape s h draws hd c n hc
+
+/-- tie between the tape form and the law form: round 1 of the tape run accepts index `i` exactly on the event
+`r < acceptThr`, whose probability is the Bernoulli parameter used in `chooseDist` -/
+theorem ld_choose_round (s : LD α) (hwt : s.weighted = true) (i : Nat) (r : Rat) (rest : List (Nat × Rat)) (c : α)
+    (hi : s.items[i]? = some c) :
+    s.chooseRandom ((i, r) :: rest) =
+      if r < s.acceptThr c then some (c, 1) else (s.chooseRandom rest).map fun (c', k) => (c', k + 1) :=
+  choose_round s hwt i r rest c hi
+
+end LD
+
+/-! non-vacuity: a concrete history with a change of the heaviest element satisfies every hypothesis -/
+example : ((LD.empty true : LD Nat).applyOps
+    [.ins 1 (some 3), .ins 2 (some 1), .upd 2 (some (1/2)), .rem 1, .ins 3 (some 2)]).map
+      (fun s => (s.items, s.maxW, s.total, s.weightSum)) = some ([2, 3], 2, 7/2, 7/2) := by decide +kernel
